@@ -3,7 +3,7 @@ C03 — model of time-based indexing in `nitime.timeseries` (core Lean only), on
 picoseconds.
 
 Follows the source branch by branch:
-* `UniformTime.index_at / slice_during / at / during / __getitem__` → `UAxis.indexAt`, `UAxis.edge`,
+* `UniformTime.index_at / slice_during / at / during / __getitem__` → `UAxis.indexAt`, `UAxis.indexAtBool`, `UAxis.edge`,
   `UAxis.sliceDuring` (intended: clipped to the axis) and `UAxis.sliceDuringCurrent` (today's
   code: refuses epochs whose start or stop is outside `[t0, t0+duration)`), `UAxis.indexAtCurrent`
   (today's range check against the *reported* duration).
@@ -94,6 +94,12 @@ def indexAtWith (a : UAxis) (hiEnd : Int) (ts : List Int) : Except Err (List Int
 def indexAt (a : UAxis) (ts : List Int) : Except Err (List Int) := a.indexAtWith a.stop ts
 /-- today's code: `t0 + self.duration` as reported by the object -/
 def indexAtCurrent (a : UAxis) (ts : List Int) : Except Err (List Int) := a.indexAtWith (a.t0 + a.dur) ts
+
+/-- `index_at(t, boolean=True)`: mask over the axis, true at the bins that were hit -/
+def indexAtBool (a : UAxis) (ts : List Int) : Except Err (List Bool) :=
+  match a.indexAt ts with
+  | .ok idx => .ok ((List.range a.n).map fun (i : Nat) => idx.contains (Int.ofNat i))
+  | .error e => .error e
 
 /-- the index of an epoch edge `s` inside the axis: `i = index_at(s); if s > self[i]: i += 1` -/
 def edgeIn (a : UAxis) (s : Int) : Nat :=
@@ -396,6 +402,13 @@ def handle (args : List String) : String :=
     | some a => match parseQuery? a.unit q with
       | some (q, sc) => match a.indexAt q with
         | .ok idx => if sc then s!"ok i:{idx.headD 0}" else "ok a:" ++ showIntList idx
+        | .error e => showErr e
+      | none => "bad-op"
+    | none => "bad-op"
+  | ["index_at_bool", "uaxis", a, q] => match parseU? a with
+    | some a => match parseQuery? a.unit q with
+      | some (q, _) => match a.indexAtBool q with
+        | .ok m => "ok B:" ++ showBoolList m
         | .error e => showErr e
       | none => "bad-op"
     | none => "bad-op"
